@@ -63,7 +63,8 @@ def norm_name(resn, name):
 
 
 def ident(resn, resi, icode, name, x, y, z):
-    rn = "WAT" if resn in ("HOH", "WAT") else resn
+    # documented renaming of v3 RNA residue names (A/C/G/U -> RA/RC/RG/RU) is not a change of the record
+    rn = "WAT" if resn in ("HOH", "WAT") else {"A": "RA", "C": "RC", "G": "RG", "U": "RU"}.get(resn, resn)
     return (rn, resi, icode, norm_name(resn, name), round(x, 3), round(y, 3), round(z, 3))
 
 
